@@ -19,7 +19,6 @@ NOT_A_SUSPENSION = {
     ('from_process.run', 0): 'set-up of the child process: not under contract (stated in the assumptions of from_process.run@2)',
     ('from_process.run', 1): 'set-up of the child process: not under contract',
     ('from_process.run', 4): 'after process.wait(): the coroutine ends, nothing left to check',
-    ('from_tcp.run', 2): '`await result` in handle_stream is unreachable: _emit returns a list, never an awaitable',
 }
 
 
